@@ -103,6 +103,9 @@ func genFileSet(r *rand.Rand, o mergeGenOpt) []*mfile {
 	if o.ForceExtends && nf < 3 {
 		nf = 3
 	}
+	if r.Intn(14) == 0 {
+		nf = 8 + r.Intn(6) // many files: thresholds of batching / parallel parsing, sort routines beyond 12 elements
+	}
 	var files []*mfile
 	typeOwner := map[string]int{}
 	relsOf := map[string]map[string]bool{}
